@@ -237,12 +237,11 @@ def _json_extract_sql(self: BigQueryGenerator, expression: JSON_EXTRACT_TYPE) ->
     if dquote_escaping:
         self._quote_json_path_key_using_brackets = False
 
-    sql = rename_func(upper)(self, expression)
-
-    if dquote_escaping:
-        self._quote_json_path_key_using_brackets = True
-
-    return sql
+    try:
+        return rename_func(upper)(self, expression)
+    finally:
+        if dquote_escaping:
+            self._quote_json_path_key_using_brackets = True
 
 
 class BigQueryGenerator(generator.Generator):
